@@ -26,6 +26,22 @@ func abbrToks(t [][2]string) []abbr {
 	return out
 }
 
+func tokString(ts []tok) string {
+	rs := make([]rune, len(ts))
+	for i, t := range ts {
+		rs[i] = rune(t.R)
+	}
+	return string(rs)
+}
+
+func abbrStrings(t []abbr) [][2]string {
+	out := [][2]string{}
+	for _, e := range t {
+		out = append(out, [2]string{tokString(e.K), tokString(e.V)})
+	}
+	return out
+}
+
 func feed(t [][2]string) func(func(a, f string)) {
 	return func(f func(a, f string)) {
 		for _, e := range t {
@@ -44,18 +60,29 @@ type driver struct {
 	recs    []rec
 }
 
+type tables struct{ simple, small, cmd [][2]string }
+
+var vTables = tables{simpleAbbr, smallAbbr, cmdAbbr}
+
+// the tables of MCCodeArea
+var gTables = tables{[][2]string{{"ab", "你"}}, [][2]string{{"b", "bb"}}, [][2]string{{"a", "aa"}}}
+
 func newDriver(fns map[string]func(*tk.CodeBuffer), content string, dotRunes int) *driver {
+	return newDriverT(fns, content, dotRunes, vTables)
+}
+
+func newDriverT(fns map[string]func(*tk.CodeBuffer), content string, dotRunes int, tb tables) *driver {
 	d := &driver{fns: fns}
 	_, off := concretise(runesOf(content), dotRunes)
 	d.ca = tk.NewCodeArea(tk.CodeAreaSpec{
-		SimpleAbbreviations:    feed(simpleAbbr),
-		SmallWordAbbreviations: feed(smallAbbr),
-		CommandAbbreviations:   feed(cmdAbbr),
+		SimpleAbbreviations:    feed(tb.simple),
+		SmallWordAbbreviations: feed(tb.small),
+		CommandAbbreviations:   feed(tb.cmd),
 		QuotePaste:             func() bool { return d.quote },
 		State:                  tk.CodeAreaState{Buffer: tk.CodeBuffer{Content: content, Dot: off}},
 	})
 	r := resetRec(content, dotRunes)
-	r.Sab, r.Wab, r.Cab = abbrToks(simpleAbbr), abbrToks(smallAbbr), abbrToks(cmdAbbr)
+	r.Sab, r.Wab, r.Cab = abbrToks(tb.simple), abbrToks(tb.small), abbrToks(tb.cmd)
 	d.recs = append(d.recs, r)
 	return d
 }
@@ -151,7 +178,7 @@ func rerun(fns map[string]func(*tk.CodeBuffer), recs []rec) ([]rec, string) {
 			for i, t := range r.Toks {
 				rs[i] = rune(t.R)
 			}
-			d = newDriver(fns, string(rs), r.Dot)
+			d = newDriverT(fns, string(rs), r.Dot, tables{abbrStrings(r.Sab), abbrStrings(r.Wab), abbrStrings(r.Cab)})
 			continue
 		}
 		if d == nil {
